@@ -808,12 +808,25 @@ Lemma load_kv_zset chk now ds i ttl s :
       match read_length s1 with
       | (None, s2) => SErr s2 ds
       | (Some n, s2) =>
-        match read_zitems_partial (S (length (r_in s))) n [] s2 with
-        | (items, ok, s3) =>
-          match api_zadd_all ds i k items with
-          | None => SErr s3 ds
-          | Some ds1 =>
-              if ok then lift_api tt s3 ds1 (api_expire_opt now ds1 i k ttl) else SErr s3 ds1
+        if n <=? 0 then lift_api tt s2 ds (api_expire_opt now ds i k ttl) else
+        match read_string s2 with
+        | (None, s3) => SErr s3 ds
+        | (Some m, s3) =>
+          match read_u64_le s3 with
+          | (None, s4) => SErr s4 ds
+          | (Some sc, s4) =>
+            match api_zadd ds i k m sc with
+            | None => SErr s4 ds
+            | Some ds0 =>
+              match read_zitems_partial (S (length (r_in s))) (n - 1) [] s4 with
+              | (items, ok, s5) =>
+                match api_zadd_all ds0 i k items with
+                | None => SErr s5 ds0
+                | Some ds1 =>
+                    if ok then lift_api tt s5 ds1 (api_expire_opt now ds1 i k ttl) else SErr s5 ds1
+                end
+              end
+            end
           end
         end
       end
@@ -829,13 +842,21 @@ Proof.
   intros Hd Hfr Hk Hn Hs Hne Hcan. rewrite load_kv_zset.
   rewrite (read_string_write k _ rv Hk).
   rewrite read_length_write by (pose proof (len_nonneg z); lia).
+  destruct z as [|[m sc] z']; [contradiction|].
+  rewrite len_pos_cons, len_cons_pred.
+  apply Forall_cons_iff in Hs. destruct Hs as [[Hm Hsc] Hs]. cbn [fst snd] in Hm, Hsc.
+  cbn [flat_map]. unfold write_zitem at 1. cbn [fst snd]. rewrite <- !app_assoc.
+  rewrite (read_string_write m _ _ Hm).
+  rewrite (read_u64_le_ok sc _ _ Hsc).
+  unfold api_zadd. rewrite Hd, Hfr.
   match goal with |- context [read_zitems_partial ?fu _ _ (mkrd _ ?vv)] =>
-    destruct (read_zitems_partial_ok z fu [] r vv) as [v' E] end.
-  { cbn [r_in mkrd]. rewrite !app_length. pose proof (flat_map_zitems_length z). lia. }
+    destruct (read_zitems_partial_ok z' fu [] r vv) as [v' E] end.
+  { cbn [r_in mkrd]. rewrite !app_length. pose proof (flat_map_zitems_length z'). lia. }
   { exact Hs. }
   unfold mkrd in *. rewrite E. cbn [rev app].
-  destruct z as [|[m sc] z']; [contradiction|].
-  rewrite (api_zadd_all_fresh ds i d k m sc z' Hd Hfr). rewrite Hcan.
+  rewrite (api_zadd_all_more z' ds i d d k [(m, sc)] Hd).
+  change (fold_left (fun a p => zs_insert (fst p) (snd p) a) z' [(m, sc)]) with (zs_rebuild ((m, sc) :: z')).
+  rewrite Hcan.
   rewrite (api_expire_opt_new now ds i d d k _ ttl Hd). eexists. reflexivity.
 Qed.
 
@@ -1394,8 +1415,12 @@ Proof.
   destruct ((vt =? T_ZSET) || (vt =? T_ZSET2)).
   { destruct (read_string s) as [[k|] s1]; [|reflexivity].
     destruct (read_length s1) as [[n|] s2]; [|reflexivity].
-    destruct (read_zitems_partial (S (length (r_in s))) n [] s2) as [[items ok] s3].
-    destruct (api_zadd_all ds i k items); [|reflexivity].
+    destruct (n <=? 0); [apply lift_api_no_panic|].
+    destruct (read_string s2) as [[m|] s3]; [|reflexivity].
+    destruct (read_u64_le s3) as [[sc|] s4]; [|reflexivity].
+    destruct (api_zadd ds i k m sc) as [ds0|]; [|reflexivity].
+    destruct (read_zitems_partial (S (length (r_in s))) (n - 1) [] s4) as [[items ok] s5].
+    destruct (api_zadd_all ds0 i k items); [|reflexivity].
     destruct ok; [apply lift_api_no_panic | reflexivity]. }
   destruct (vt =? T_LIST).
   { destruct (read_string s) as [[k|] s1]; [|reflexivity].
@@ -1607,9 +1632,14 @@ Proof.
   { step_rs s Hs; [|exact G].
     pose proof (read_length_ok s0 G) as [G1 _]. unfold res_ok in G1.
     destruct (read_length s0) as [[n|] s2]; cbn [snd] in G1; [|exact G1].
-    pose proof (read_zitems_partial_ok' (S (length (r_in s))) n [] s2 G1) as G2.
-    destruct (read_zitems_partial (S (length (r_in s))) n [] s2) as [[items ok] s3]. cbn [snd] in G2.
-    destruct (api_zadd_all ds i x items); [|exact G2].
+    destruct (n <=? 0); [apply lift_api_ok; exact G1|].
+    step_rs s2 G1; [|exact G0].
+    pose proof (read_u64_le_ok' s1 G0) as G3. unfold res_ok in G3.
+    destruct (read_u64_le s1) as [[sc|] s4]; cbn [snd] in G3; [|exact G3].
+    destruct (api_zadd ds i x x0 sc) as [ds0|]; [|exact G3].
+    pose proof (read_zitems_partial_ok' (S (length (r_in s))) (n - 1) [] s4 G3) as G2.
+    destruct (read_zitems_partial (S (length (r_in s))) (n - 1) [] s4) as [[items ok] s5]. cbn [snd] in G2.
+    destruct (api_zadd_all ds0 i x items); [|exact G2].
     destruct ok; [apply lift_api_ok; exact G2 | exact G2]. }
   destruct (vt =? T_LIST).
   { step_rs s Hs; [|exact G].
